@@ -268,7 +268,8 @@ func c19Config(fail func(kind, sig, format string, a ...any)) (steps int, sample
 		sort.Strings(out)
 		return out
 	}
-	for _, u := range app.Upgrades {
+	realStarts := 0
+	for ui, u := range app.Upgrades {
 		prev := names(cur)
 		for _, d := range u.StoreUpgrades.Deleted {
 			if !cur[d] {
@@ -299,6 +300,20 @@ func c19Config(fail func(kind, sig, format string, a ...any)) (steps int, sample
 		if why := c19StoreStep(prev, next, &su); why != "" {
 			fail("store-step", "store-step:"+u.UpgradeName, "upgrade %s: %s", u.UpgradeName, why)
 		}
+		// the binary's OWN choice of store loader: if no later descriptor changes stores, this binary can be started on a
+		// database with the store set before this descriptor, exactly at the upgrade height (upgrade-info.json on disk)
+		laterChanges := false
+		for _, l := range app.Upgrades[ui+1:] {
+			if len(l.StoreUpgrades.Added)+len(l.StoreUpgrades.Deleted)+len(l.StoreUpgrades.Renamed) > 0 {
+				laterChanges = true
+			}
+		}
+		if !laterChanges {
+			if why := c19RealStart(prev, u.UpgradeName); why != "" {
+				fail("store-step", "real-start:"+u.UpgradeName, "starting this binary at the height of upgrade %s on the store set before it: %s", u.UpgradeName, why)
+			}
+			realStarts++
+		}
 		steps++
 		samples = append(samples, map[string]any{"upgrade": u.UpgradeName, "added": u.StoreUpgrades.Added, "deleted": u.StoreUpgrades.Deleted, "stores_after": len(next)})
 	}
@@ -319,6 +334,7 @@ func c19Config(fail func(kind, sig, format string, a ...any)) (steps int, sample
 			fail("unmounted-store", "unmounted-store:"+s, "after all descriptors store %q should exist, but the binary does not mount it", s)
 		}
 	}
+	_ = realStarts
 	return steps, samples
 }
 
@@ -453,4 +469,40 @@ func C19(t Tier) int {
 		"every descriptor step is validated against the real rootmulti store: reload with UpgradeStoreLoader succeeds, reload without it fails when stores are added",
 	}
 	return run.Finish()
+}
+
+// c19RealStart: a database holding the store set `prev` (three committed versions with data), upgrade-info.json naming
+// `plan` at the next height, and the real application constructor: loading must succeed.
+func c19RealStart(prev []string, plan string) string {
+	db := dbm.NewMemDB()
+	ms := rootmulti.NewStore(db, log.NewNopLogger())
+	keys := map[string]*storetypes.KVStoreKey{}
+	for _, n := range prev {
+		k := storetypes.NewKVStoreKey(n)
+		keys[n] = k
+		ms.MountStoreWithDB(k, storetypes.StoreTypeIAVL, nil)
+	}
+	if err := ms.LoadLatestVersion(); err != nil {
+		return "HARNESS: cannot load initial store set: " + err.Error()
+	}
+	for v := 0; v < 3; v++ {
+		for n, k := range keys {
+			ms.GetCommitKVStore(k).Set([]byte(fmt.Sprintf("k%d", v)), []byte(n))
+		}
+		ms.Commit()
+	}
+	h := ms.LastCommitID().Version
+	home := world.NewHome()
+	defer os.RemoveAll(home)
+	if err := os.MkdirAll(filepath.Join(home, "data"), 0o755); err != nil {
+		return "HARNESS: " + err.Error()
+	}
+	info := fmt.Sprintf(`{"name":%q,"height":%d}`, plan, h+1)
+	if err := os.WriteFile(filepath.Join(home, "data", "upgrade-info.json"), []byte(info), 0o644); err != nil {
+		return "HARNESS: " + err.Error()
+	}
+	if err := world.StartOnDatabase(db, home); err != nil {
+		return firstLineOf(err.Error())
+	}
+	return ""
 }
